@@ -5,9 +5,12 @@ functions rpylib draws from by scripted ones and spies on the producers of jump 
 
 Sub-check "sim"   one case = (simulator, product, simulation mode, maximum step, jump counts per interval); inside a case
                   every multiset of jump-time uniforms from {0.1, 0.5, 0.9} per interval is simulated (handed to the library
-                  in DEcreasing order, so that the library's sort matters) on ONE simulator object.  Fixed-date mode has no
-                  jump times: one case simulates the batch of all count tuples {0,1,2}^n after ONE pre_computation (as the
-                  engines do), so that the paths of a batch must consume disjoint pre-drawn rows.
+                  in DEcreasing order, so that the library's sort matters) on ONE simulator object, then the EDGE script
+                  (u = 0: a jump ON the product date that opens its interval, time 0 in the first one; u = 1 - 2^-53, the
+                  largest value random_sample returns: a jump one ulp before the next date or, after rounding, ON it - the
+                  maturity in the last interval of the yearly products).  Fixed-date mode has no jump times: one case
+                  simulates the batch of all count tuples {0,1,2}^n after ONE pre_computation (as the engines do), so that
+                  the paths of a batch must consume disjoint pre-drawn rows.
     simulators    LevyProcess on HEM / Merton / exp-HEM (real jump_increment, spied), MarkovChainProcess (HEM; CGMY y=1.2
                   whose diffusion coefficient carries the small-jump adjustment), MarkovChainLevyCopula (HEM x Merton,
                   Clayton, d=2), CouplingMarkovChain at level 0 (simulate_one_path, what the multilevel engine calls at its
@@ -15,18 +18,35 @@ Sub-check "sim"   one case = (simulator, product, simulation mode, maximum step,
                   level 0, 1 and 2.  State sampler: INVERSION, and on HEM also BINARYSEARCHTREE, ALIAS (chain and coupling),
                   TABLE, HUFFMANNTREE, BINARYSEARCHTREEADAPTED1D (coupling) and BINARYSEARCHTREEADAPTED (copula chain and
                   copula coupling).  Construction routes of a coupling at level >= 1: "direct" (initialisation, next_level
-                  on the same object) and "engine" (the multilevel engine's: at every level pre_computation and one
-                  simulated path, copy.deepcopy, next_level on the copy).  Models also through the "reinit" route of
-                  mc.alphabets (Merton direct, CGMY chain, HEM coupling).
+                  on the same object, path_managers=None) and "engine" (the multilevel engine's: at every level
+                  pre_computation and one simulated path, copy.deepcopy, next_level on the copy WITH a list of real MLMCPath
+                  path managers - the branch of next_level that builds the fine / coarse deterministic parts; the manager
+                  appended for the level must give two components with one column per time of every path).  Models also
+                  through the "reinit" route of mc.alphabets (Merton direct, CGMY chain, HEM coupling).
     products      Spot (T=1, 0.9, 0.5) and Asian YEARLY with T=1,2,3 / MONTHLY with T=2/12, 3/12: the two producers of time
-                  grids in rpylib.product.underlying -> 1, 2, 3 intervals; identity payoff with payoff_dates_type
+                  grids in rpylib.product.underlying -> 1, 2, 3 intervals; MANY DATES: Asian MONTHLY T=2 (24 intervals) and
+                  WEEKLY T=0.5 (26 intervals, thorough); identity payoff with payoff_dates_type
                   DETERMINISTIC (fixed dates) or STOCHASTIC (jump times); maximum step eps in {T/4, T/2.5, 2T, T/5, T/10}
                   (T/5, T/10: gaps between the scripted jump times / to the maturity that are multiples of eps in decimal but
-                  not in binary: 0.2 and 0.1 against 0.1, 0.5, 0.9, 1.0) and, for T = 0.9, {T/3 = 0.3, T/9 = 0.1, T/4}.
+                  not in binary: 0.2 and 0.1 against 0.1, 0.5, 0.9, 1.0) and, for T = 0.9, {T/3 = 0.3, T/9 = 0.1, T/4};
+                  EXACT TIES {T (eps equal to the maturity), T/2 (equal to a date interval of the 2-date products and to the
+                  gap left by u = 0.5), T/8}: every gap of the no-jump path is an exact binary multiple; MANY POINTS
+                  {T/50, T/200} on the 24 / 26-date products (50 to 200 inserted points, with and without jumps).
+    sizes         jump counts {0,1,2}^n; MANY jumps in one interval and none in the others (6 in the first / last / middle
+                  interval; fixed dates: also (3,..,3)) with pairwise distinct uniforms (2j+1)/12 and with all-equal ones;
+                  many dates: counts all 0 / all 1 / (7k+1) mod 3 / one interval with 2; fixed dates additionally: a
+                  pre-computation for ZERO paths followed by one for a SINGLE path on the same object (a pass of the engine in
+                  which a level needs no / one further path); jump times: a zero-path pre-computation before the second one.
+    forms         the maturity of the product and the maximum step handed over as Python int (where integral), numpy scalar
+                  (np.float64; np.float32 where exact) and 0-d array (thorough), the number of paths as np.int64: same
+                  oracle as for Python floats (cases with "form"; spot-1 and asian-y2; fixed, jump, max eps T/4, T, 2T).
     tiers         quick: 12 simulators (levy HEM/Merton, chain HEM/CGMY/HEM-bst, copula chain, coupling HEM/CGMY/HEM-bst/
                   HEM-alias, copula coupling inversion/bsta; level 1) x {spot-1, spot-09, asian-y2, asian-m3} + 7 simulators
                   (level-0 couplings 1-d / copula, engine route 1-d / copula, the three reinit models) x {spot-1, spot-09,
-                  asian-y2}; thorough: every simulator of c15_util.SIMS x all 8 products.
+                  asian-y2}; the 5 base simulators (levy-hem, chain-hem, copula-chain, coupling-hem, coupling-copula) x
+                  {exact ties on spot-1 / asian-y2; many jumps on spot-1 / asian-y2 / asian-m3; many dates on asian-m24;
+                  forms int / np}; thorough: every simulator of c15_util.SIMS x all 8 products, x the ties / many-jumps /
+                  many-dates groups (asian-w26 too), forms int / np / 0d on the 12 quick simulators.
     oracle        t[0]=0 and both components 0 there; times non-decreasing (strictly where the scripted jump times differ),
                   last = maturity; fixed dates: times = product dates; jump times: times = {0} + scripted jump times + {T};
                   jump component: at every product date (fixed) / jump time the increment since the previous point is the
@@ -36,9 +56,12 @@ Sub-check "sim"   one case = (simulator, product, simulation mode, maximum step,
                   of the two neighbours for odd ones), again as a running sum; diffusion component: every increment divided
                   by coefficient*sqrt(dt) is one scripted Brownian variate, each used at most once (per path and, in a
                   pre-drawn batch, across paths AND across the batches of one object) - layout independent; maximum step:
-                  every step <= eps(1+1e-12), every original time present with its value, inserted points repeat the
+                  every step <= eps(1+1e-12) + 4 ulp(T) per point of the path (the times are a cumulative sum), every
+                  original time present with its value, inserted points repeat the
                   preceding jump value and are times of their own (an inserted point within 1e-9*eps of a neighbour is a
-                  violation "times-not-strictly-increasing:inserted-point-at-the-next/previous-time"), all components have
+                  violation "times-not-strictly-increasing:inserted-point-at-the-next/previous-time" in gaps of at most 128
+                  eps; in longer gaps such points are counted "near_duplicate_inserted_points_in_long_gaps", see below),
+                  all components have
                   one column per time; the accessors the engines read agree with the stored components (value() =
                   diffusion + jumps, value_jump() = jumps, times() = jump_times).
     histories     (on the one simulator object of a case; every path is checked by the oracle right after its simulation)
@@ -46,12 +69,20 @@ Sub-check "sim"   one case = (simulator, product, simulation mode, maximum step,
                     paths of its chunk; it is read again after the next path, and all kept paths are read again at the end
                     of the case and after every operation below: any change of times / diffusion / jumps is a violation
                     "kept-path-changes:<operation>:<component>" (operation next-path | pre-computation-again |
-                    initialisation-again | other-object).  Jump-time / maximum-step cases simulate the first script twice
+                    initialisation-again | other-object | copy-deepcopy | copy-dill: the last three kept paths must
+                    survive copy.deepcopy and a dill round trip, as the results of a chunk sent back by a pool worker).
+                    Jump-time / maximum-step cases simulate the first script twice
                     more at the end, so that the single path of a case without jumps is followed by a later one too.
                   * pre-computation-again: reset_one_simulation_cost + pre_computation on the same object (engines: once per
                     pass); fixed dates: a second batch (count tuples in reverse order) must be built from fresh variates.
+                  * POOL COPY (every case, alternately "dill" and "deepcopy"): right after that second pre_computation the
+                    simulator is replaced by dill.loads(dill.dumps(simulator)) / copy.deepcopy(simulator) - what a pool
+                    worker receives with the closure of its chunk - and the copy simulates the rest of the case (fixed
+                    dates: the whole second batch from ITS pre-drawn rows, then the later batches).  A simulation that
+                    raises on the copy gets the key suffix ":after-pool-copy-<how>".  (The spies are module-level
+                    callables that find the scripted RNG through a registry, so that they survive both kinds of copy.)
                   * initialisation-again: initialisation + pre_computation on the same object (engines: once per pricing);
-                    fixed dates: a third batch.
+                    fixed dates: a third batch; then the zero-path and the single-path pre-computations.
                   * other-object: in the middle of the case a second simulator of the same class simulates one path:
                     copy.deepcopy of the object and, for a coupling, next_level on the copy (what the multilevel engine
                     does while it goes on using the object of the previous level; for the copula coupling in maximum-step
@@ -59,17 +90,43 @@ Sub-check "sim"   one case = (simulator, product, simulation mode, maximum step,
                     changed kept path or as a failed oracle on the following paths.
 Sub-check "finer" the two copies of build_finer_grid (levyprocess.SimulationMaximumStep.create_build_finer_grid_fun and
                   coupling/helper.create_build_finer_grid_fun - markovchain.py, markovchainlevycopula.py and the couplings
-                  reuse these two) on ALL increasing time arrays with 1..4 points from the lattice {0.1,...,1.0} x eps in
-                  {0.1, 0.15, 0.2, 0.3, 0.7, 1.5} x declared maturity in {1, 2} x values 1-d / 2-d.  Returned times must be
+                  reuse these two; the helper's function also refines the step from the last point to the declared
+                  maturity, which is judged too)
+                  * decimal lattice: ALL increasing time arrays with 1..4 points from {0.1,...,1.0} x eps in
+                    {0.1, 0.15, 0.2, 0.3, 0.7, 1.5} x declared maturity in {1, 2} x values 1-d / 2-d;
+                  * binary lattice (exact ties): ALL increasing arrays with 0..4 points from {0, 0.25, ..., 2.0} (a point at
+                    time 0, a point at the declared maturity, no point at all) x eps in {0.125, 0.25, 0.5, 0.75, 1.0} x
+                    maturity in {2, 3}: every gap is an exact multiple of 0.125 and 0.25;
+                  * argument forms: eps and maturity as Python int (eps = 1), np.float64, np.float32, 0-d array on the
+                    2-point arrays of the binary lattice: exactly the answer obtained with Python floats;
+                  * many points: gaps of 64, 100, 128, 300, 1000 eps (maturity 1 and 3; no point / one early point / one
+                    point in the middle / two close points);
+                  * the arrays handed in are compared with copies taken before the call ("argument-modified").
+                  Returned times must be
                   strictly increasing: consecutive times closer than 1e-9*eps are a violation (an inserted point at the
-                  time of the next one is what splitting a remainder of eps + a few ulps produces).
+                  time of the next one is what splitting a remainder of eps + a few ulps produces) in gaps of at most 128 eps.
+
+Counted, not judged: in a gap of MORE than 128 eps the library's repeated subtraction of eps accumulates a rounding error
+proportional to the GAP (about sqrt(k) ulps of the gap after k subtractions) while its tolerance for "the remainder is one
+step" is 1e-12 relative to EPS: from about 300 steps per gap on (eps = T/300, T/2000 with T = 1, 2, 3, 0.5) the remainder
+exceeds the tolerance and one more point is inserted 1e-15..1e-13 before the point that closes the gap (both copies). The
+times are then still strictly increasing and no step exceeds eps, which is all the statement asks for; the points are counted
+as "near_duplicate_inserted_points_in_long_gaps" (set NEAR_DUP_JUDGED_UP_TO = inf to judge them).  Same root (the refined
+times are the cumulative sum of the repeatedly shortened steps, the originals are not copied back): a jump time tied with the
+maturity (u = 1 - 2^-53 in the last interval) came back a few ulps ABOVE the maturity which the library then appends exactly -
+last step of -1e-16, sqrt(dt) = nan in the last diffusion value; repaired in /repo by 32afd07 (refined times are clamped to the
+last original time) and judged since ("times-decrease:last-point-an-ulp-beyond-the-maturity").
 
 Outside the alphabet (statement silent): where inside a long gap the extra points are put; presence of the interior product
 dates in jump-time mode (the library returns jump times and the maturity only); which variate feeds which jump inside one
 interval; law of the coupling decision (C03) and of the state sampler (C02); infinite-variation copula models (their
 constructor opens a process pool) and copulas of dimension 3 (cost of the constructor); tied ORIGINAL jump times (scripted
-equal uniforms) are only required to be non-decreasing; sharing of the (constant) array of product dates between the paths of
-one simulator is not judged (only changes of values are); a path object written to by its holder.
+equal uniforms, a jump at time 0, a jump rounded onto the maturity) are only required to be non-decreasing; sharing of the
+(constant) array of product dates between the paths of one simulator is not judged (only changes of values are); a path
+object written to by its holder; time / value arguments of the finer-grid functions as Python lists or integer arrays (the
+unchanged tree rejects them: it reads `.size` / subtracts eps in place); a fixed-date simulation after a pre-computation for
+zero paths (nothing was pre-drawn: the unchanged tree raises IndexError); sharing of pre-drawn rows between the original and
+its pool copy (C08's known finding: the copy's paths are judged on their own); antithetic_value (no statement).
 """
 from __future__ import annotations
 
@@ -84,13 +141,17 @@ from mc import core
 PID = "C15"
 LEVEL = "exploration"
 RULE = (
-    "complete product: simulator (incl. level-0 couplings, engine construction route, reinit models) x product (1,2,3 "
-    "intervals) x mode {fixed, jump times, max step eps in {T/4,T/2.5,2T,T/5,T/10} ({T/3,T/9,T/4} for T=0.9)} x jump counts "
-    "{0,1,2}^intervals x all multisets of jump-time uniforms from {0.1,0.5,0.9}, all on one simulator object per case with "
-    "the history operations next-path / pre-computation-again / initialisation-again / other-object and every returned path "
-    "kept and re-read; plus both build_finer_grid copies on all <=4-point time arrays of a 10-point lattice x 6 eps; a case "
-    "is non-trivial when at least one real path (or finer grid) was compared with the reference assembly from the scripted "
-    "variates; distinct = distinct case dict"
+    "complete product: simulator (incl. level-0 couplings, engine construction route with path managers, reinit models) x "
+    "product (1,2,3 intervals) x mode {fixed, jump times, max step eps in {T/4,T/2.5,2T,T/5,T/10} ({T/3,T/9,T/4} for T=0.9)} x "
+    "jump counts {0,1,2}^intervals x all multisets of jump-time uniforms from {0.1,0.5,0.9} + the edge script {0, 1-2^-53}, "
+    "all on one simulator object per case with the history operations next-path / pre-computation-again (also for zero and "
+    "one path) / pool copy (dill | deepcopy) / initialisation-again / other-object and every returned path kept, re-read and "
+    "copied; plus, on 5 base simulators (all in thorough): exact ties eps in {T,T/2,T/8}, 6 jumps in one interval and none in "
+    "the others, 24/26 product dates with eps in {T/50,T/200}, maturity / eps / number of paths as int, numpy scalar, 0-d "
+    "array; plus both build_finer_grid copies on all <=4-point time arrays of a 10-point decimal lattice x 6 eps and of a "
+    "9-point binary lattice (time 0, maturity, empty) x 5 eps, argument forms, gaps of up to 1000 eps, arguments unmodified; "
+    "a case is non-trivial when at least one real path (or finer grid) was compared with the reference assembly from the "
+    "scripted variates; distinct = distinct case dict"
 )
 ASSUMPTIONS = [
     "numpy.random.{poisson,random_sample,random,normal,uniform,choice} and random.getrandbits are replaced by scripted functions while a case runs; "
@@ -125,6 +186,8 @@ FINER_ACC_DIVS = [64, 100, 128, 300, 1000]
 # gaps the rounding of the library's repeated subtraction of eps (relative to the GAP) may exceed the library's own tolerance
 # (1e-12 relative to EPS): such points are counted, not judged (see the module docstring)
 NEAR_DUP_JUDGED_UP_TO = 128
+QUICK_SIMS = ["levy-hem", "levy-merton", "chain-hem", "chain-cgmy12", "copula-chain", "coupling-hem", "coupling-cgmy12",
+              "coupling-copula", "chain-hem-bst", "coupling-hem-bst", "coupling-hem-alias", "coupling-copula-bsta"]
 BASE5 = ["levy-hem", "chain-hem", "copula-chain", "coupling-hem", "coupling-copula"]
 MANY = 6  # "many" jumps in one interval
 
@@ -205,13 +268,11 @@ def cases(tier):
         sims = list(U.SIMS)
         prods = ["spot-1", "spot-05", "spot-09", "asian-y1", "asian-y2", "asian-m2", "asian-y3", "asian-m3"]
     else:
-        sims = ["levy-hem", "levy-merton", "chain-hem", "chain-cgmy12", "copula-chain", "coupling-hem", "coupling-cgmy12",
-                "coupling-copula", "chain-hem-bst", "coupling-hem-bst", "coupling-hem-alias", "coupling-copula-bsta"]
+        sims = list(QUICK_SIMS)
         prods = ["spot-1", "spot-09", "asian-y2", "asian-m3"]
         # level-0 couplings, engine construction route and reinit models: 1 and 2 intervals in quick (3 in thorough)
         short = ["coupling-hem-l0", "coupling-copula-l0", "coupling-hem-engine", "coupling-copula-engine",
                  "levy-merton-reinit", "chain-cgmy12-reinit", "coupling-hem-reinit"]
-    quick_sims = list(sims)
     sim_cases = []
     for prod in prods:
         n = _n_intervals(prod)
@@ -259,7 +320,7 @@ def cases(tier):
     for form in (U.FORMS if thorough else U.FORMS[:2]):
         for prod in ("spot-1", "asian-y2"):
             n = _n_intervals(prod)
-            for sim in (quick_sims if thorough else BASE5):
+            for sim in (QUICK_SIMS if thorough else BASE5):
                 sim_cases.append({"sub": "sim", "sim": sim, "prod": prod, "mode": "fixed", "eps": None, "form": form})
                 sim_cases.append({"sub": "sim", "sim": sim, "prod": prod, "mode": "jump", "eps": None, "counts": [1] * n, "form": form})
                 for ef in ("T/4", "T", "2T"):
@@ -406,6 +467,17 @@ def _raise_key(mode, cls, e, n):
     return f"C15:{_mode_name(mode)}:{cls}:raises:{type(e).__name__}:{_icls(n)}"
 
 
+def _hist(d):
+    """suffix of a violation key of a simulation that raised: the argument form of the case and whether the simulator in use
+    is a copy made after the pre-computation (the same failure on the usual form / on the original object has no suffix)"""
+    out = ""
+    if getattr(d, "form", None):
+        out += f":form-{d.form}"
+    if getattr(d, "copied", None):
+        out += f":after-pool-copy-{d.copied}"
+    return out
+
+
 def _mode_name(mode):
     return {"fixed": "fixed-dates", "jump": "jump-times", "max": "max-step"}[mode]
 
@@ -538,7 +610,7 @@ def _run_fixed(sh, case, sim, prod, cls):
                         raise
                     except Exception as e:
                         sh.count("evaluations")
-                        sh.violation(_raise_key("fixed", cls, e, n), f"{sim} {prod} counts {counts}: {e!r}", {"counts": counts})
+                        sh.violation(_raise_key("fixed", cls, e, n) + _hist(d), f"{sim} {prod} counts {counts}: {e!r}", {"counts": counts})
                         sh.outcome((sim, "fixed", counts, "raises", type(e).__name__))
                         return p + 1, True
                     _oracle(sh, d, "fixed", None, counts, None, t, D, J, pool, used_batch, offset + p)
@@ -641,6 +713,7 @@ def _run_jump(sh, case, sim, prod, cls, mode, eps):
             if q == (len(scripts) - 1) // 2:
                 kept.reread("next-path")
                 try:
+                    d.precompute_again(n_paths=0)  # a pass of the engine in which the level needs no further path
                     d.precompute_again()
                 except U.ProtocolError:
                     raise
@@ -659,7 +732,7 @@ def _run_jump(sh, case, sim, prod, cls, mode, eps):
             except Exception as e:
                 sh.count("evaluations")
                 eq = "equal-counts" if len(set(counts)) == 1 else "unequal-counts"
-                sh.violation(_raise_key(mode, cls, e, n) + (":" + eq if n > 1 else ""),
+                sh.violation(_raise_key(mode, cls, e, n) + (":" + eq if n > 1 else "") + _hist(d),
                              f"{sim} {prod} {mode} eps={eps} counts {counts} uniforms {us}: {e!r}", {"counts": counts, "us": us})
                 sh.outcome((sim, mode, counts, "raises", type(e).__name__))
                 continue
@@ -772,7 +845,15 @@ def _oracle(sh, d, mode, eps, counts, us, t, D, J, pool, used_batch, p_index):
 
     # ---- times
     if np.any(np.diff(t) < 0):
-        viol("times-decrease", f"times {t}")
+        # the refined times are a cumulative sum of steps; before 32afd07 a jump time tied with the maturity came back a few ulps
+        # ABOVE the maturity that the library appends exactly (last step of -1e-16, nan in the last diffusion value): judged,
+        # under its own key
+        dmin = float(np.diff(t).min())
+        at_maturity = mode == "max" and t[-1] == T and abs(ref_t[-2] - T) <= tt and not np.any(np.diff(np.minimum(t, T)) < 0)
+        if at_maturity and dmin >= -4 * m1 * float(np.spacing(T)):
+            viol("times-decrease:last-point-an-ulp-beyond-the-maturity", f"times end with {t[-3:]}")
+        else:
+            viol("times-decrease", f"times {t}")
         return
     if abs(t[-1] - T) > tt:
         viol("last-time-not-maturity", f"last time {t[-1]} != maturity {T}")
